@@ -273,10 +273,21 @@ func (fr *FnRun) viewCopyFact(st *State, dstArr *Term, dstOff *Term, src *SliceV
 	// element-wise form (aligned views only): dst[dstOff + W*e + j] == byte j of element e
 	data := fr.sliceData(st, src)
 	lv := arrLeaves(data)
-	if _, isNested := data.(*NestedArr); isNested || len(lv) == 0 || !(src.Off.IsInt() && src.Off.I.Sign() == 0) {
+	if !(src.Off.IsInt() && src.Off.I.Sign() == 0) || len(lv) == 0 {
 		return bytewise
 	}
 	w := int64(src.ViewW)
+	if na, isNested := data.(*NestedArr); isNested {
+		if ex.sizeOf(na.T.Elem()) != 1 {
+			return bytewise
+		}
+		// byte-array elements: dst[dstOff + W*e + j] == A[e][j]
+		e := Var(ex.fresh("e!vc"), SInt)
+		j := Var(ex.fresh("j!vc"), SInt)
+		body := Implies(And(Le(Int(0), e), Le(Add(Mul(e, Int(w)), Int(w)), n), Le(Int(0), j), Lt(j, Int(w))),
+			Eq(Select(dstArr, Add(dstOff, Add(Mul(e, Int(w)), j))), fr.scalarByte(Select(Select(na.Data, e), j), na.T.Elem(), 1, 0)))
+		return And(bytewise, Forall([]*Term{e, j}, body, Select(Select(na.Data, e), j)))
+	}
 	e := Var(ex.fresh("e!vc"), SInt)
 	el := ex.readElem(st, data, src.ViewElem, e)
 	bs := fr.elemBytes(st, el, src.ViewElem)
